@@ -1,8 +1,8 @@
 --------------------------- MODULE TraceGroundSite ---------------------------
 (* impl -> spec for C11.  Each trace is one ground agent of one REAL scenario    *)
 (* (harness/drivers/c11.py):                                                    *)
-(*   [startSec, dt, invMs |-> Terrestrial.datetime_start minus the authoritative *)
-(*                            start, in ms,                                      *)
+(*   [startSec, dt, plan |-> step sizes (s), one per logged step, db |-> 0/1,     *)
+(*    invMs |-> Terrestrial.datetime_start minus the authoritative start, in ms,  *)
 (*    st |-> << per step k = 1, 2, ...:                                          *)
 (*       [clockMs     |-> clock.datetime_epoch - start (ms),                     *)
 (*        epochMs     |-> agent.datetime_epoch - start (ms),                     *)
@@ -37,11 +37,12 @@ PickBlock == /\ i = 0 /\ \E b \in 1..NB : i' = -b
              /\ UNCHANGED vars
 PickTrace == /\ i < 0
              /\ \E j \in {n \in DOMAIN Tr : n % NB = (-i) - 1} :
-                  /\ i' = j /\ startSec' = Tr[j].startSec /\ dt' = Tr[j].dt
+                  /\ i' = j /\ startSec' = Tr[j].startSec /\ dt' = Tr[j].dt /\ plan' = Tr[j].plan
              /\ pc' = "posed"
              /\ UNCHANGED <<lon, theta0, invErr, clockSec, k, siteEpoch, inertial, vel>>
 TraceBuild == /\ i > 0 /\ Build /\ UNCHANGED i
-TraceStep  == /\ i > 0 /\ k < Len(Tr[i].st) /\ Step /\ UNCHANGED i
+\* every trace carries its plan of step sizes (a scenario: the physics step, once per step)
+TraceStep  == /\ i > 0 /\ k < Len(Tr[i].st) /\ PlanStep /\ UNCHANGED i
 TraceNext == PickBlock \/ PickTrace \/ TraceBuild \/ TraceStep
 TraceSpec == TraceInit /\ [][TraceNext]_tvars
 
@@ -62,7 +63,8 @@ TrSiteEpochAgrees == Logged => Clause("TrSiteEpochAgrees", Rec.siteEpochMs = 100
 \* SiteFixed: within one metre of the configured Earth-fixed position
 TrSiteFixed       == Logged => Clause("TrSiteFixed", Rec.dispMm < 1000)
 TrOwnFieldsFixed  == Logged => Clause("TrOwnFieldsFixed", Rec.ownDispMm < 1000 /\ Rec.llaErrMm < 1000)
-TrDbRowFixed      == Logged => Clause("TrDbRowFixed", Rec.dbDispMm >= 0 /\ Rec.dbDispMm < 1000)
+\* (traces of an agent stepped directly have no database: db = 0)
+TrDbRowFixed      == (Logged /\ Tr[i].db = 1) => Clause("TrDbRowFixed", Rec.dbDispMm >= 0 /\ Rec.dbDispMm < 1000)
 \* VelIsRotation: Earth-fixed velocity below 1e-6 km/s; inertial speed = omega * axis distance
 TrVelIsRotation   == Logged => Clause("TrVelIsRotation", Rec.velErr < 1000 /\ Rec.speedErr < 5000)
 Accepted == (i > 0 /\ pc = "run" /\ k = Len(Tr[i].st)) => PrintT(<<"ACCEPTED", i>>)
